@@ -273,6 +273,9 @@ def _record(rec, before, after, sim):
     rec["delta_sha"] = sha(delta)
     rec["delta_head"] = _head(delta)
     rec["fired"] = [list(f) for f in sim.fired if f[1] == t.op_index]
+    if delta[:2] == b"PK":
+        from .c12 import xlsx_describe
+        rec["xlsx"] = xlsx_describe(delta)        # sheet -> rows/cols/cell digest, for a readable diagnosis
 
 
 def _exec_cli(sc, sim, ini, scratch, attempts, out):
@@ -450,9 +453,12 @@ def judge(sc, ref, res):
                 elif not whole and not natural:
                     prev_faults = any(x.get("fired") for x in res["attempts"][:i])
                     cls = "retry-differs-from-reference" if prev_faults else "write-differs-from-reference"
+                    xl = ""
+                    if r.get("xlsx") or ref_a.get("xlsx"):
+                        xl = " ; sheets here: %s ; sheets in the reference: %s" % (_sheets(r.get("xlsx")), _sheets(ref_a.get("xlsx")))
                     v.append({"class": "C17/%s/%s" % (cls, where if prev_faults else base_cls + "/site=none"), "attempt": i,
-                              "detail": "write() returned normally but emitted %d bytes sha %s; reference table is %d bytes sha %s (after %s earlier failed attempt(s))"
-                                        % (r["delta_len"], r["delta_sha"][:12], ref_len, ref_sha[:12], sum(1 for x in res["attempts"][:i] if x.get("fired")))})
+                              "detail": "write() returned normally but emitted %d bytes sha %s; reference table is %d bytes sha %s (after %s earlier failed attempt(s))%s"
+                                        % (r["delta_len"], r["delta_sha"][:12], ref_len, ref_sha[:12], sum(1 for x in res["attempts"][:i] if x.get("fired")), xl)})
     if natural and ref.get("attempts"):
         # determinism of the natural outcome between the two children
         for i, (r0, r1) in enumerate(zip(ref["attempts"], res["attempts"][:1])):
@@ -463,6 +469,14 @@ def judge(sc, ref, res):
         if "retry-differs" in x["class"] and "site=None" in x["class"]:
             x["class"] = x["class"].replace("site=None", "site=unknown")
     return v
+
+
+def _sheets(x):
+    if not x:
+        return "n/a"
+    if "error" in x:
+        return x["error"]
+    return ", ".join("%s %dx%d [%s]" % (k, v["rows"], v["cols"], v["cells"]) for k, v in sorted(x.items()))
 
 
 def _was_whole_or_sentinel(r, ref_sha):
